@@ -319,6 +319,65 @@ class Env:
             return self.chc.CompaSOHaloCatalog(path, **kw)
 
 
+class LCCatalog:
+    """Halo light-cone layout: one lc_halo_info.asdf + one lc_pid_rv.asdf (already decoded pos/vel/pid),
+    indexed by the stored npstartA/npoutA.  halos: list of dict(nA=..., gA=...)."""
+
+    LCDIR = 'halo_light_cones'
+
+    def __init__(self, halos, box=2000.0, velz=208774.9, ppd=6912.0):
+        self.halos = halos
+        self.box = box
+        self.header = dict(BoxSize=box, VelZSpace_to_kms=velz, ppd=ppd, SimName=SIM, Redshift=0.5, SimSet='AbacusSummit',
+                           OutputType='GroupOutput', ParticleSubsampleA=0.03, ParticleSubsampleB=0.07,
+                           TimeSliceRedshiftsPrev=[0.8, 1.1])
+        nh = len(halos)
+        rows = np.arange(nh)
+        raw = {k: v for k, v in fill_values(raw_layout(), rows).items() if 'L2' in k}
+        lc = [('N', 'u4', ()), ('N_interp', 'u4', ()), ('npstartA', 'u8', ()), ('npoutA', 'u4', ()), ('index_halo', 'i8', ()),
+              ('origin', 'i1', ()), ('pos_avg', 'f4', (3,)), ('pos_interp', 'f4', (3,)), ('vel_avg', 'f4', (3,)),
+              ('vel_interp', 'f4', (3,)), ('redshift_interp', 'f4', ()), ('haloindex', 'u8', ())]
+        for name, dt, tail in lc:
+            n = int(np.prod(tail)) if tail else 1
+            raw[name] = ((np.arange(nh * n).reshape((nh,) + tuple(tail)) * 3 + (_h(name) % 50)) % (100 if dt == 'i1' else 10 ** 6)).astype(dt)
+        raw['pos_avg'][::2] = 0      # rows without averaged positions fall back to the interpolated ones
+        ser = BASE['A']
+        gap = BASE['gap']
+        pos, vel, pid = [], [], []
+        self.model = []
+
+        def rec(s):
+            p, v = refs.rvint_ref(rv_record(s), box)
+            pos.append(p.astype(np.float32)); vel.append(v.astype(np.float32))
+            pid.append(np.int64(refs.pid_ref(np.array([pid_record(s)], dtype=np.uint64))['pid'][0]))
+        for hi, h in enumerate(halos):
+            for _ in range(h.get('gA', 0)):
+                rec(gap); gap += 1
+            raw['npstartA'][hi] = len(pos)
+            raw['npoutA'][hi] = h.get('nA', 0)
+            own = []
+            for _ in range(h.get('nA', 0)):
+                rec(ser); own.append(ser); ser += 1
+            self.model.append(own)
+        rec(gap)
+        self.files = {'lc_halo_info.asdf': dict(header=self.header, data=raw),
+                      'lc_pid_rv.asdf': dict(header=self.header, data=dict(pos=np.array(pos, dtype=np.float32).reshape(-1, 3),
+                                                                          vel=np.array(vel, dtype=np.float32).reshape(-1, 3),
+                                                                          pid=np.array(pid, dtype=np.int64)))}
+
+
+def mount_lc(env, cat):
+    d = os.path.join(env.root, 'LC', LCCatalog.LCDIR, SIM, ZDIR)
+    os.makedirs(d, exist_ok=True)
+    env.fake.store = {}
+    for name, node in cat.files.items():
+        p = os.path.join(d, name)
+        if not os.path.exists(p):
+            open(p, 'w').close()
+        env.fake.store[os.path.abspath(p)] = node
+    return d
+
+
 def write_real(cat, root, compression=None):
     """Conformance: the same catalog as real ASDF files under root; returns the redshift dir."""
     import asdf
